@@ -186,3 +186,24 @@ func C17Race() {
 	sym.Assert(n0 <= 1 && n1 <= 1, "delivered-more-than-sent")
 	sym.Reach("race-done")
 }
+
+// C17CloseWhileReplyStalled: a call arrives for a handler whose queue is full, so dispatch answers it
+// with an error itself; the peer is not reading and that write stalls until the connection is closed.
+// Close() (or the peer going away) must still end the connection: every handler is closed exactly once.
+func C17CloseWhileReplyStalled() {
+	s := newZZStream()
+	s.blockWrites = 1
+	e := NewEndPoint(s)
+	var closed int32
+	queue := make(chan *Message) // nobody reads it: always full
+	e.MakeHandler(func(hdr *Header) (bool, bool) { return true, true }, queue, func(err error) { atomic.AddInt32(&closed, 1) })
+	typ := []uint8{Call, Post}[sym.Choose("incoming-type", 2)]
+	s.inject(NewMessage(NewHeader(typ, 1, 1, 1, 7), nil))
+	sym.Quiesce()
+	sym.Assert(e.Close() == nil, "close-ok")
+	sym.Quiesce()
+	sym.Assert(atomic.LoadInt32(&closed) == 1, "closer-exactly-once")
+	_, open := <-queue
+	sym.Assert(!open, "queue-not-closed")
+	sym.Reach("stalled-close-done")
+}
